@@ -165,6 +165,22 @@ def _one(arg):
             out["nontrivial"] = "b|" + case.cls if r.rc == 1 else None
             o2 = {"viol": []}
             judge_after(e2fsck, env, img, before, o2, label)
+            if o2["viol"] and len(case.op_patches) > 1:
+                want = o2["viol"][0][0]
+
+                def still(c2):
+                    fsckpair.materialise(c2, base, img)
+                    rr = run.run([e2fsck, "-fy", img], env=env, timeout=300)
+                    if rr.rc not in (0, 1):
+                        return False
+                    o3 = {"viol": []}
+                    judge_after(e2fsck, env, img, before, o3, label)
+                    return bool(o3["viol"]) and o3["viol"][0][0] == want
+                small = fsckpair.minimise_case(u, case, "summary", still)
+                if small is not case:
+                    case = small
+                    out["descr"] = case.descr
+                    kinds = "+".join(sorted(set(k for k in case.cls.split("+"))))
             for k, w in o2["viol"]:
                 out["viol"].append(("%s [%s]" % (k, kinds), "cid %d %s: %s" % (item, case.descr, w)))
             if out["viol"]:
